@@ -7,6 +7,7 @@ package document
 import (
 	"errors"
 
+	"github.com/yorkie-team/yorkie/api/types"
 	"github.com/yorkie-team/yorkie/internal/zzvsym"
 	"github.com/yorkie-team/yorkie/pkg/document/json"
 	"github.com/yorkie-team/yorkie/pkg/document/presence"
@@ -59,7 +60,9 @@ func VerifR6UpdateAtomic() {
 	preUndoLen := a.UndoStackLenForTest()
 	// the failing update
 	k := zzvsym.IntRange("edits", 0, 2)
-	mode := zzvsym.IntRange("mode", 0, 2)
+	mode := zzvsym.IntRange("mode", 0, 3)
+	leakPresence := zzvsym.IntRange("presenceEdit", 0, 1) == 1
+	prePresence := vPresenceOf(a, a.ActorID())
 	ops := make([]vOp, k)
 	for i := range ops {
 		// the first edit ranges over the alphabet (chosen against the
@@ -75,11 +78,23 @@ func VerifR6UpdateAtomic() {
 		zzvsym.Assume(limit > 0)
 		a.MaxSizeLimit = limit
 	}
+	// mode 3: the attached schema requires the container to keep its type
+	ruleKey := []string{"o", "arr", "txt", "cnt", "tree"}[typ]
+	if mode == 3 {
+		ruleType := []string{"object", "array", "yorkie.Text", "yorkie.Counter", "yorkie.Tree"}[typ]
+		a.SchemaRules = []types.Rule{{Path: "$." + ruleKey, Type: ruleType}}
+	}
 	var err error
 	panicked := zzvsym.Fails(func() {
 		err = a.Update(func(root *json.Object, p *presence.Presence) error {
 			for _, op := range ops {
 				vApplyIn(root, op)
+			}
+			if leakPresence {
+				p.Set("leak", "1")
+			}
+			if mode == 3 {
+				root.SetString(ruleKey, "not-a-container") // violates the rule; the callback itself succeeds
 			}
 			switch mode {
 			case 0:
@@ -91,6 +106,9 @@ func VerifR6UpdateAtomic() {
 		})
 	})
 	a.MaxSizeLimit = 0
+	if mode == 3 && !panicked {
+		zzvsym.Assert(errors.Is(err, ErrSchemaValidationFailed), "schema-violation-rejected")
+	}
 	failed := panicked || err != nil
 	zzvsym.Reach("update-returned")
 	// (an edit chosen against the pre-state can be out of range after the
@@ -112,6 +130,7 @@ func VerifR6UpdateAtomic() {
 		zzvsym.Assert(a.CanRedo() == preRedo, "failed-update-keeps-can-redo")
 		zzvsym.Assert(a.UndoStackLenForTest() == preUndoLen, "failed-update-keeps-undo-stack")
 		zzvsym.Assert(a.Root().Marshal() == preMarshal, "failed-update-clone-shows-pre-call-content")
+		zzvsym.Assert(vPresenceOf(a, a.ActorID()) == prePresence, "failed-update-keeps-presence")
 	}
 	vCheckClone(a, "after")
 	// the next successful update sees the right content and still syncs
